@@ -1,47 +1,54 @@
 (* Entry points evaluated by the correspondence harness (props/C09.py). *)
 From PV Require Export C09.Spec.
 
+Definition jv_text (t : text) : jv := JL (map JZ t).       (* a str: its code points *)
 Definition jv_nt (t : ntuple) : jv := JL (map (fun kv => JL [JB (fst kv); JZ (snd kv)]) t).
 Definition jv_front (r : front_res) : jv :=
   match r with
   | RNone => jnone
-  | RDict d => JC "Dict" [JL (map (fun kv => JL [JB (fst kv); jv_nt (snd kv)]) d)]
+  | RDict d => JC "Dict" [JL (map (fun kv => JL [jv_text (fst kv); jv_nt (snd kv)]) d)]
   | RTuple t => JC "Tuple" [jv_nt t]
   end.
 Definition jv_spec (ok : bool) (r : front_res) : jv := if ok then JC "Val" [jv_front r] else jnone.
+Definition jv_xout {A} (f : A -> jv) (x : xout A) : jv :=
+  match x with
+  | XV o => jv_outcome f o
+  | XAssert => JC "Exc" [JC "AssertionError" []]
+  end.
 
 (* kernel-shaped /proc/net/dev *)
 Definition run_net (sp : bool) (l : list knic) : jv :=
   let c := k_netdev sp l in
   JL [ JB c;
-       jv_outcome jv_front (net_io_counters true c);
-       jv_outcome jv_front (net_io_counters false c);
+       jv_xout jv_front (net_io_counters true c);
+       jv_xout jv_front (net_io_counters false c);
        jv_spec (wf_nics l) (spec_net true l);
-       jv_spec (wf_nics l) (spec_net false l) ].
+       jv_spec (wf_nics l) (spec_net false l);
+       jbool (forallb (fun i => dev_valid_name (n_name i)) l) ].
 Definition run_net_raw (c : bytes) : jv :=
-  JL [ jv_outcome jv_front (net_io_counters true c); jv_outcome jv_front (net_io_counters false c) ].
+  JL [ jv_xout jv_front (net_io_counters true c); jv_xout jv_front (net_io_counters false c) ].
 
-Definition in_listing (names : list bytes) (n : bytes) : bool := existsb (beqb n) names.
+(* /sys/block as a list of directory entry names (bytes); the oracle answers for a str *)
+Definition in_listing (names : list bytes) (n : text) : bool := existsb (beqb n) (map dec names).
 
 (* kernel-shaped /proc/diskstats; /sys/block holds the whole disks plus [others] *)
 Definition run_disk (l : list kdisk) (others : list bytes) : jv :=
   let c := k_diskstats l in
   let listing := map (fun d => sysfs_name (d_name d)) (filter d_whole l) ++ others in
   let sb := in_listing listing in
-  let ok := wf_disks l && sysblock_agrees sb l in
+  let ok := wf_disks l in
   JL [ JB c; JL (map JB listing);
        jv_outcome jv_front (disk_io_counters true sb (ProcDiskstats c));
        jv_outcome jv_front (disk_io_counters false sb (ProcDiskstats c));
-       jv_spec ok (spec_disks true l);
-       jv_spec ok (spec_disks false l);
-       jbool (no_l24 l) ].
+       jv_spec ok (spec_disks sb true l);
+       jv_spec ok (spec_disks sb false l);
+       jbool (no_l24 l); jbool (sysblock_agrees sb l) ].
 Definition run_disk_raw (c : bytes) (listing : list bytes) : jv :=
   let sb := in_listing listing in
   JL [ jv_outcome jv_front (disk_io_counters true sb (ProcDiskstats c));
        jv_outcome jv_front (disk_io_counters false sb (ProcDiskstats c)) ].
 
-(* no /proc/diskstats: the /sys/block walk.  [l] in walk order; [others] = further /sys/block entries
-   without a stat file *)
+(* no /proc/diskstats: the /sys/block walk.  [l] in walk order *)
 Definition run_sys (l : list ksys) : jv :=
   let ents := map (fun e => (y_name e, k_sys_stat e)) l in
   let listing := map y_name (filter y_whole l) in
@@ -60,12 +67,31 @@ Definition run_nosource : jv :=
   JL [ jv_outcome jv_front (disk_io_counters true (fun _ => false) NoSource);
        jv_outcome jv_front (disk_io_counters false (fun _ => false) NoSource) ].
 
+(* disk_usage: _asdict() items with the field names found in the code *)
 Definition jv_usage (u : usage) : jv :=
-  JL [ JZ (u_total u); JZ (u_used u); JZ (u_free u);
-       jopt (fun p => JL [JZ (fst p); JZ (snd p)]) (u_percent u) ].
+  JL (map (fun kv => JL [JB (fst kv); snd kv])
+          (combine gen_sdiskusage_fields
+                   [JZ (u_total u); JZ (u_used u); JZ (u_free u);
+                    jopt (fun p => JL [JZ (fst p); JZ (snd p)]) (u_percent u)])).
+Definition spec_usage_names : list bytes := [bs "total"; bs "used"; bs "free"; bs "percent"].
+Definition jv_usage_spec (u : usage) : jv :=
+  JL (map (fun kv => JL [JB (fst kv); snd kv])
+          (combine spec_usage_names
+                   [JZ (u_total u); JZ (u_used u); JZ (u_free u);
+                    jopt (fun p => JL [JZ (fst p); JZ (snd p)]) (u_percent u)])).
 Definition run_usage (bsize frsize blocks bfree bavail : Z) : jv :=
   let st := Build_statvfs bsize frsize blocks bfree bavail in
-  JL [ jv_usage (disk_usage st); jv_usage (spec_usage st) ].
+  JL [ jv_usage (disk_usage st); jv_usage_spec (spec_usage st) ].
+
+(* the text layer against CPython: bytes.decode("utf-8", "surrogateescape"), str.isspace(),
+   str.split(), str.strip() *)
+Definition run_dec (b : bytes) : jv :=
+  let t := dec b in
+  JL [ jv_text t; jv_text (univ_nl t); JL (map jv_text (usplit t)); jv_text (ustrip t) ].
+Definition run_uws_table : jv :=
+  jv_text (rev (snd (Pos.iter (fun st : Z * list Z =>
+                                 let (c, acc) := st in (c + 1, if is_uws c then c :: acc else acc))
+                              (0, []) 1114112%positive))).
 
 (* decimal printer used by the case generator only (keeps generated terms small) *)
 Fixpoint dz_aux (fuel : nat) (n : Z) (acc : bytes) : bytes :=
